@@ -18,6 +18,10 @@ func init() {
 }
 
 func runC05(c *Ctx) {
+	// what a block is verified against (generator list, BFT parameters) is read from the store of the
+	// branch being processed; memory kept in the BFT module across blocks survives a revert
+	checkModuleStateless(c, "C05.D1 module-holds-no-state")
+	checkMemoryFollowsReverts(c, "C05.R12 memory-follows-reverts")
 	p := c.P
 	c.Assume = append(c.Assume, "byte equality of the resulting database is not decided (needs execution); the application-state side is C16")
 	saveBlock := c.Anchor("pkg/blockchain.(*DataAccess).saveBlock")
